@@ -309,10 +309,7 @@ func main() {
 		if len(ofiles) == 0 {
 			return nil
 		}
-		isMain := false
-		for _, f := range ofiles {
-			isMain = f.Name.Name == "main"
-		}
+
 		rep := &pkgReport{ImportPath: ip, Names: map[string]string{}, Files: map[string]string{}, MapListed: map[string]string{}}
 		reports = append(reports, rep)
 		// <debugdir>/garbled mirrors <debugdir>/source: same directories (original import paths), same file names
@@ -329,7 +326,7 @@ func main() {
 				continue
 			}
 			os_, gs := shape(of), shape(gf)
-			if gs != os_ && !(isMain && strings.HasPrefix(gs, os_)) {
+			if gs != os_ && !strings.HasPrefix(gs, os_) { // garble appends declarations (reflection support in main, -literals proxies)
 				rep.Problems = append(rep.Problems, "garbled file "+on+" does not correspond to its source (declaration shape differs)")
 				continue
 			}
